@@ -17,10 +17,22 @@ func (g *Gen) loopVarNames(li *loopInfo) []string {
 		names[i] = p.Comment
 	}
 	if li.spec != nil && len(li.spec.Vars) > 0 {
-		for i, n := range li.spec.Vars {
-			if i < len(names) {
-				names[i] = n
+		pos := 0
+		for _, n := range li.spec.Vars {
+			if k := strings.Index(n, "="); k > 0 {
+				// name=comment: bind the phi whose SSA comment (source variable
+				// name, "rangeindex", "rangeint.iter") matches
+				for i, p := range li.phis {
+					if p.Comment == n[k+1:] {
+						names[i] = n[:k]
+					}
+				}
+				continue
 			}
+			if pos < len(names) {
+				names[pos] = n
+			}
+			pos++
 		}
 	}
 	return names
@@ -29,7 +41,7 @@ func (g *Gen) loopVarNames(li *loopInfo) []string {
 func (g *Gen) enterLoop(li *loopInfo, ins []inEdge, fwdPreds []*ssa.BasicBlock) error {
 	b := li.header
 	names := g.loopVarNames(li)
-	if li.spec != nil && len(li.spec.Vars) > len(li.phis) {
+	if li.spec != nil && len(li.spec.Vars) > len(li.phis) && !strings.Contains(strings.Join(li.spec.Vars, ","), "=") {
 		return fmt.Errorf("loop %d: contract binds %d loop variables, header has %d phis", li.idx, len(li.spec.Vars), len(li.phis))
 	}
 	// entry values of the phis (merged over forward edges)
@@ -171,10 +183,16 @@ func (g *Gen) enterLoop(li *loopInfo, ins []inEdge, fwdPreds []*ssa.BasicBlock) 
 	// loop variables named explicitly by the contract are visible to clauses
 	// evaluated inside the loop body (call-site, store-site obligations)
 	if li.spec != nil {
-		for i, n := range li.spec.Vars {
-			if i < len(li.phis) && n != "_" {
-				if _, clash := g.env[n]; !clash {
-					g.env[n] = hdrEnv[n]
+		for _, n := range names {
+			if hv, ok := hdrEnv[n]; ok && n != "_" {
+				explicit := false
+				for _, sv := range li.spec.Vars {
+					if sv == n || strings.HasPrefix(sv, n+"=") {
+						explicit = true
+					}
+				}
+				if _, clash := g.env[n]; !clash && explicit {
+					g.env[n] = hv
 				}
 			}
 		}
